@@ -985,6 +985,10 @@ func (h *headReader) Read(ctx context.Context, out frame.Frame) (n int, err erro
 	if h.n <= 0 {
 		return 0, sliceio.EOF
 	}
+	if h.n < out.Len() {
+		// Write only rows that we may deliver.
+		out = out.Slice(0, h.n)
+	}
 	n, err = h.reader.Read(ctx, out)
 	h.n -= n
 	if h.n < 0 {
